@@ -1009,13 +1009,19 @@ class _ClassBuilder:
             an for an in self._attr_names if an != "__weakref__"
         )
 
+        hash_caching_enabled = self._cache_hash
+
         def slots_getstate(self):
             """
             Automatically created by attrs.
             """
-            return {name: getattr(self, name) for name in state_attr_names}
+            state = {name: getattr(self, name) for name in state_attr_names}
+            if hash_caching_enabled and not state:
+                # Pickle protocols 0 and 1 drop a falsy state without calling
+                # __setstate__, which would leave the hash cache unset.
+                state[_HASH_CACHE_FIELD] = None
 
-        hash_caching_enabled = self._cache_hash
+            return state
 
         def slots_setstate(self, state):
             """
